@@ -6,7 +6,9 @@ ROOT = os.path.join(os.path.dirname(os.path.abspath(__file__)), "..")
 props = [json.loads(l) for l in open(os.path.join(ROOT, "properties.jsonl"))]
 cfgs = {}
 for p in sorted(glob.glob(os.path.join(ROOT, "props", "C*.json"))):
-    c = json.load(open(p)); cfgs[c["id"]] = c
+    c = json.load(open(p))
+    if c["id"] in {q["id"] for q in props}:   # sub-engines (e.g. C02S) are run by their parent check
+        cfgs[c["id"]] = c
 na_reasons = {}
 nap = os.path.join(ROOT, "props", "not_applicable.json")
 if os.path.exists(nap):
